@@ -4,3 +4,5 @@ import Driver.Fk
 import Driver.ModelMode
 import Driver.FramesMode
 import Driver.RatMode
+import Driver.MkMode
+import Driver.IntMode
